@@ -487,12 +487,13 @@ def rule_s4(chk: Check) -> None:
     for fi in ci.methods.values():
         g3 = None
         for st in walk(fi.node):
-            if isinstance(st, ast.Assign) and isinstance(st.value, ast.Call) and method_call(st.value) and method_call(st.value)[1] == "recv":
+            walrus = isinstance(st, ast.NamedExpr) and isinstance(st.target, ast.Name)
+            if (isinstance(st, ast.Assign) or walrus) and isinstance(st.value, ast.Call) and method_call(st.value) and method_call(st.value)[1] == "recv":
                 loops += 1
                 if g3 is None:
                     g3 = build_cfg(chk.proj, fi)
-                var = dotted(st.targets[0])
-                rn = next(n for n in g3.nodes if n.ast is st)
+                var = dotted(st.target if walrus else st.targets[0])
+                rn = next(n for n in g3.nodes if n.ast is not None and (n.ast is st or (walrus and n.kind == "test" and any(x is st for x in ast.walk(n.ast)))))
                 feed = {
                     n.id for n in nodes_calling(
                         g3, lambda c: method_call(c) is not None and method_call(c)[1] == "data_received" and len(c.args) == 1 and dotted(c.args[0]) == var
@@ -502,7 +503,8 @@ def rule_s4(chk: Check) -> None:
                 # every feasible continuation must hand it over before the
                 # next recv() or the return
                 init_f = BoolFacts({var: True, "self.inner_protocol": True}, {var: False, "self.inner_protocol": False})
-                starts = [b for b, lab in g3.succ[rn.id] if lab not in ("exc", "raise")]
+                # non-empty result: for `while x := recv():` that is the true edge of the test
+                starts = [b for b, lab in g3.succ[rn.id] if lab not in ("exc", "raise") and not (walrus and lab == "F")]
                 ok3 = bool(feed)
                 for s0 in starts:
                     for path, _st in walk_paths(g3, s0, init_f, boolfacts_step, stop=lambda n: n.id == rn.id or n.kind == "exit", follow=normal_only):
@@ -533,7 +535,7 @@ def rule_s4(chk: Check) -> None:
                         fi.loc(st), g3.fmt_path(wit) if wit else [],
                     )
                 chk.ob("S4", f"{fi.key}: pump keeps reading after a non-empty recv()", ok4)
-    chk.floor("S4", "recv loops", loops, 2)
+    chk.require("S4", ci.key, "recv loops", loops, 1, "the wrapper no longer reads decrypted data from the TLS engine")
 
     # (c) data_received: handshake xor application processing
     dr = ci.methods.get("data_received")
